@@ -4,14 +4,16 @@ import LunarVerif.Proofs.C15
 
 Property theorems only (helpers are in `Proofs/C15.lean`).  Model: `Model/C15.lean` (aggregation algebra,
 persistence, the pipeline `step`/`runSegs` with the URL normaliser as a PARAMETER); vocabulary of the
-statements: `Spec/C15.lean` (`sem`, `AggEq` = equality as maps, `Totals`, `Laws`, guards, classifiers).
+statements: `Spec/C15.lean` (`sem`, `AggEq` = equality as maps, `Totals`, `Laws`, guards, classifier).
+The model describes the code AFTER the repairs of F15a (a URL the tree refuses is skipped by `NormalizeTree`
+instead of failing the batch) and F15b (persisted keys are split at the first `:::` only).
 
 * Algebra (no assumption, all inputs): `extract_append`, `combine_assoc`, `combine_comm`,
   `count_eq_sum_status`, `mean_exact`, `rekey_conserves`, `persist_restore`.
-* Pipeline: `restart_conserves_totals_partial` (ANY normaliser, restarts anywhere; excluded: rejected
-  batches = F15a, keys broken by the `:::` split = F15b), `batch_invariant_partial` (normaliser laws L0–L3
-  as hypotheses, no refusable URL) with `attribution_exact`; the `_violation_witness` theorems show that
-  the excluded classes really break the full statements.
+* Pipeline: `restart_conserves_totals` (ANY normaliser, ANY URLs, restarts anywhere; only input
+  well-formedness: no `:` in a method), `batch_invariant_partial` (normaliser laws L1–L3 as hypotheses — the
+  excluded class of the open finding F15c) with `attribution_exact`, `judge_holds_on_model`;
+  `batch_invariant_violation_witness` shows that the laws are needed.
 * NOT proved here: that the real convergence tree (`Model/C15Tree.lean`, executable transcription) satisfies
   L1–L3 — it is only tested, and it does NOT in the class of finding F15c; float32 means (tested in the harness).
 -/
@@ -38,7 +40,7 @@ theorem combine_comm (A B : Agg) : AggEq (A.combine B) (B.combine A) :=
    fun P => by simp [Agg.combine, sem_combineG, Sem.add_comm],
    fun P => by simp [Agg.combine, isem_combineG, omax_comm]⟩
 
-/-- Invariant: in every state of every run (any normaliser, any batches, restarts, rejected batches) every
+/-- Invariant: in every state of every run (any normaliser, any batches, restarts) every
     endpoint entry and every per-consumer entry has `count = Σ status-code counts` — in memory and in the file. -/
 theorem count_eq_sum_status {τ : Type} (N : Normaliser τ) (T0 : τ) (segs : List Seg) :
     (∀ p ∈ (runSegs N T0 (St.init T0) segs).agg.endpoints, p.2.count = stTotal p.2.status) ∧
@@ -84,37 +86,41 @@ theorem persist_restore (A : Agg) (hn : NodupKeys A) (hk : KeysOK A) :
     restore (persist A) = floorAgg A ∧ (TimesAligned A → restore (persist A) = A) :=
   ⟨restore_persist_floor A hn hk, fun ht => by rw [restore_persist_floor A hn hk, floorAgg_of_aligned A ht]⟩
 
-/-- The key guard of `persist_restore` holds whenever no method contains `:` and no (normalised) URL contains
-    `:::` — the decidable complement of finding class F15b. -/
-theorem keysOK_of_clean (A : Agg) (he : ∀ p ∈ A.endpoints, cleanKey p.1 = true)
-    (hc : ∀ p ∈ A.consumers, cleanKey p.1.2 = true) : KeysOK A :=
-  keysOK_of_cleanKeys A he hc
+/-- The key guard of `persist_restore` holds whenever no method contains `:` — whatever the URLs
+    (since the repair of F15b the key is split at the FIRST `:::` only). -/
+theorem keysOK_of_clean (A : Agg) (he : ∀ p ∈ A.endpoints, cleanMethod p.1.1 = true)
+    (hc : ∀ p ∈ A.consumers, cleanMethod p.1.2.1 = true) : KeysOK A :=
+  ⟨fun p hp => restoreKey_dumpKey _ (he p hp), fun p hp => restoreKey_dumpKey _ (hc p hp)⟩
 
 /-! ## Pipeline -/
 
 /-- Totals are conserved by the whole pipeline for ANY normaliser (no law needed: merging URLs under inferred
-    parameters can move traffic between URLs, never between methods or consumers, and never lose it) and ANY
-    placement of batch boundaries and restarts — provided no batch is rejected (F15a) and the keys survive the
-    `:::` split whenever the file is read back (F15b); both side conditions are `RunOK`. -/
-theorem restart_conserves_totals_partial {τ : Type} (N : Normaliser τ) (T0 : τ) (segs : List Seg)
-    (hok : RunOK N T0 (St.init T0) segs) :
+    parameters can move traffic between URLs, never between methods or consumers, and never lose it), ANY URLs
+    (refusable ones included) and ANY placement of batch boundaries and restarts.  The only hypothesis is input
+    well-formedness: no method contains `:` (true of every HTTP method token). -/
+theorem restart_conserves_totals {τ : Type} (N : Normaliser τ) (T0 : τ) (segs : List Seg)
+    (hm : MethodsClean (recsOf segs)) :
     Totals (runSegs N T0 (St.init T0) segs).agg (external (recsOf segs)) ∧
     Totals (restore (runSegs N T0 (St.init T0) segs).file) (external (recsOf segs)) := by
-  have h := runSegs_totals N T0 segs (St.init T0) [] totals_empty nodupKeys_empty (Or.inl rfl) hok
+  have h := runSegs_totals N T0 segs (St.init T0) [] ((external (recsOf segs)).map (·.method))
+    (by intro m hmem
+        simp only [List.mem_map] at hmem
+        obtain ⟨r, hr, rfl⟩ := hmem
+        exact hm r hr)
+    (methodsIn_empty _) (fun r hr => List.mem_map.mpr ⟨r, hr, rfl⟩)
+    totals_empty nodupKeys_empty (Or.inl rfl)
   simpa using h
 
-/-- Batch independence: if the normaliser satisfies the laws (L0 only refusable URLs fail, L1 factorisation,
-    L2 learning is insensitive to batch boundaries, L3 no signal ⇒ no change) and the stream contains no
-    refusable URL, then two ways of cutting the same stream into batches end with the same tree, the same
-    statistics (as maps) and a state file written from them. -/
+/-- Batch independence: if the normaliser satisfies the laws (L1 factorisation, L2 learning is insensitive to
+    batch boundaries, L3 no signal ⇒ no change) then two ways of cutting the same stream into batches end with
+    the same tree and the same statistics (as maps).  The laws are the excluded class of the open finding F15c. -/
 theorem batch_invariant_partial {τ : Type} (N : Normaliser τ) (T0 : τ) (L : Laws N T0)
-    (bs₁ bs₂ : List (List Rec)) (hsame : bs₁.flatten = bs₂.flatten)
-    (hclean : hasBadUrl bs₁.flatten = false) :
+    (bs₁ bs₂ : List (List Rec)) (hsame : bs₁.flatten = bs₂.flatten) :
     let s₁ := runSegs N T0 (St.init T0) (bs₁.map Seg.batch)
     let s₂ := runSegs N T0 (St.init T0) (bs₂.map Seg.batch)
     s₁.tree = s₂.tree ∧ AggEq s₁.agg s₂.agg := by
-  have h₁ := runBatches_inv N T0 L bs₁ [] (T0, {}) (inv_init N T0 L) (hasBadUrl_flatten _ hclean)
-  have h₂ := runBatches_inv N T0 L bs₂ [] (T0, {}) (inv_init N T0 L) (hasBadUrl_flatten _ (hsame ▸ hclean))
+  have h₁ := runBatches_inv N T0 L bs₁ [] (T0, {}) (inv_init N T0 L)
+  have h₂ := runBatches_inv N T0 L bs₂ [] (T0, {}) (inv_init N T0 L)
   have e₁ : ((runSegs N T0 (St.init T0) (bs₁.map Seg.batch)).tree, (runSegs N T0 (St.init T0) (bs₁.map Seg.batch)).agg)
       = runBatches N (T0, {}) bs₁ := runSegs_batches N T0 bs₁ (St.init T0)
   have e₂ : ((runSegs N T0 (St.init T0) (bs₂.map Seg.batch)).tree, (runSegs N T0 (St.init T0) (bs₂.map Seg.batch)).agg)
@@ -133,12 +139,11 @@ theorem batch_invariant_partial {τ : Type} (N : Normaliser τ) (T0 : τ) (L : L
 
 /-- ... and the common result is the reference attribution: every record is attributed to the normal form of
     its URL under the FINAL tree (so, with `mean_exact`/`sem_bag_*`, counts = number of attributed records). -/
-theorem attribution_exact {τ : Type} (N : Normaliser τ) (T0 : τ) (L : Laws N T0)
-    (bs : List (List Rec)) (hclean : hasBadUrl bs.flatten = false) :
+theorem attribution_exact {τ : Type} (N : Normaliser τ) (T0 : τ) (L : Laws N T0) (bs : List (List Rec)) :
     let s := runSegs N T0 (St.init T0) (bs.map Seg.batch)
     s.tree = N.learn T0 (urlsOf bs.flatten) ∧
     AggEq s.agg (bagAgg (N.norm (N.learn T0 (urlsOf bs.flatten))) (external bs.flatten)) := by
-  have h := runBatches_inv N T0 L bs [] (T0, {}) (inv_init N T0 L) (hasBadUrl_flatten _ hclean)
+  have h := runBatches_inv N T0 L bs [] (T0, {}) (inv_init N T0 L)
   have e : ((runSegs N T0 (St.init T0) (bs.map Seg.batch)).tree, (runSegs N T0 (St.init T0) (bs.map Seg.batch)).agg)
       = runBatches N (T0, {}) bs := runSegs_batches N T0 bs (St.init T0)
   simp only [Inv, List.nil_append] at h
@@ -149,15 +154,14 @@ theorem attribution_exact {τ : Type} (N : Normaliser τ) (T0 : τ) (L : Laws N 
 /-- THE CONNECTION: the predicate the judge evaluates on the implementation's state files (`Spec.C15.holds`:
     nothing rejected, totals conserved per method and per consumer, `count = Σ status`, interceptor times,
     and equal statistics for all restart-free splittings) is TRUE of the observations of the model, for every
-    lawful normaliser, every stream without refusable URL, every family of splittings (`fulls`) and every
-    family of runs with restarts (`rests`) of that stream whose side conditions `RunOK` hold.  So a judge
-    failure on the implementation is a divergence from the proved model, or lies in an excluded class. -/
+    lawful normaliser, every stream with well-formed methods, every family of splittings (`fulls`) and every
+    family of runs with restarts (`rests`) of that stream.  So a judge failure on the implementation is a
+    divergence from the proved model, or a failure of the laws (finding F15c). -/
 theorem judge_holds_on_model {τ : Type} (N : Normaliser τ) (T0 : τ) (L : Laws N T0) (stream : List Rec)
-    (hclean : hasBadUrl stream = false)
+    (hm : MethodsClean stream)
     (fulls : List (List (List Rec))) (hfull : ∀ bs ∈ fulls, bs.flatten = stream)
-    (hokF : ∀ bs ∈ fulls, RunOK N T0 (St.init T0) (bs.map Seg.batch))
     (rests : List (List Seg)) (hrest : ∀ segs ∈ rests, recsOf segs = stream)
-    (hokR : ∀ segs ∈ rests, RunOK N T0 (St.init T0) segs) (thr : Nat) (known : List String) :
+    (thr : Nat) (known : List String) :
     holds { thr := thr, known := known, recs := stream,
             runs := fulls.map (fun bs => observeRun N T0 true (bs.map Seg.batch))
                     ++ rests.map (fun segs => observeRun N T0 false segs) } = true := by
@@ -166,25 +170,23 @@ theorem judge_holds_on_model {τ : Type} (N : Normaliser τ) (T0 : τ) (L : Laws
     | nil => rfl
     | cons b rest ih => simp [recsOf, ih]
   -- every single run conserves
-  have hcons : ∀ (full : Bool) (segs : List Seg), recsOf segs = stream → RunOK N T0 (St.init T0) segs →
+  have hcons : ∀ (full : Bool) (segs : List Seg), recsOf segs = stream →
       ((observeRun N T0 full segs).nondet = false ∧ (observeRun N T0 full segs).fails = 0 ∧
         conserves stream (observeRun N T0 full segs) = true) := by
-    intro full segs hr hok
-    have ht := (restart_conserves_totals_partial N T0 segs hok).2
+    intro full segs hr
+    have ht := (restart_conserves_totals N T0 segs (hr ▸ hm)).2
     have hagg := (runSegs_aggOk N T0 segs (St.init T0) aggOk_empty (by
       simpa [St.init] using aggOk_restore_persist {} aggOk_empty)).2
     rw [hr] at ht
-    have h0 := failCount_zero N T0 segs (St.init T0) hok
-    refine ⟨rfl, by simp [observeRun, observe, h0], ?_⟩
-    simp only [observeRun, h0]
+    refine ⟨rfl, rfl, ?_⟩
     exact conserves_of_totals full _ stream ht hagg
   simp only [holds, Bool.and_eq_true, List.all_eq_true, List.mem_append, List.mem_map]
   refine ⟨?_, ?_⟩
   · intro o ho
     rcases ho with ⟨bs, hbs, rfl⟩ | ⟨segs, hs, rfl⟩
-    · obtain ⟨h1, h2, h3⟩ := hcons true _ ((recsOf_batches bs).trans (hfull bs hbs)) (hokF bs hbs)
+    · obtain ⟨h1, h2, h3⟩ := hcons true _ ((recsOf_batches bs).trans (hfull bs hbs))
       simp [h1, h2, h3]
-    · obtain ⟨h1, h2, h3⟩ := hcons false _ (hrest segs hs) (hokR segs hs)
+    · obtain ⟨h1, h2, h3⟩ := hcons false _ (hrest segs hs)
       simp [h1, h2, h3]
   · -- batch independence among the restart-free runs
     apply batchInvariant_of_pairwise
@@ -200,23 +202,32 @@ theorem judge_holds_on_model {τ : Type} (N : Normaliser τ) (T0 : τ) (L : Laws
     obtain ⟨bs₁, h₁, rfl⟩ := pick a ha.1 ha.2
     obtain ⟨bs₂, h₂, rfl⟩ := pick b hb.1 hb.2
     have hinv := batch_invariant_partial N T0 L bs₁ bs₂ ((hfull _ h₁).trans (hfull _ h₂).symm)
-      ((hfull _ h₁).symm ▸ hclean)
-    have f₁ := runSegs_batches_file N T0 bs₁ (St.init T0) rfl (hokF _ h₁)
-    have f₂ := runSegs_batches_file N T0 bs₂ (St.init T0) rfl (hokF _ h₂)
+    have f₁ := runSegs_batches_file N T0 bs₁ (St.init T0) rfl
+    have f₂ := runSegs_batches_file N T0 bs₂ (St.init T0) rfl
     have n₁ := runSegs_nodup N T0 (bs₁.map Seg.batch) (St.init T0) nodupKeys_empty
     have n₂ := runSegs_nodup N T0 (bs₂.map Seg.batch) (St.init T0) nodupKeys_empty
-    simp only [observeRun, failCount_zero N T0 _ _ (hokF _ h₁), failCount_zero N T0 _ _ (hokF _ h₂), f₁.1, f₂.1]
-    exact sameStats_of_aggEq _ _ hinv.2 n₁ f₁.2 n₂ f₂.2
+    have hms : ∀ m ∈ (external stream).map (·.method), cleanMethod m = true := by
+      intro m hmem
+      simp only [List.mem_map] at hmem
+      obtain ⟨r, hr, rfl⟩ := hmem
+      exact hm r hr
+    have k₁ := keysOK_of_methodsIn _ _ (runSegs_batches_methodsIn N T0 bs₁ (St.init T0)
+      ((external stream).map (·.method)) (methodsIn_empty _)
+      (fun r hr => List.mem_map.mpr ⟨r, (hfull _ h₁) ▸ hr, rfl⟩)) hms
+    have k₂ := keysOK_of_methodsIn _ _ (runSegs_batches_methodsIn N T0 bs₂ (St.init T0)
+      ((external stream).map (·.method)) (methodsIn_empty _)
+      (fun r hr => List.mem_map.mpr ⟨r, (hfull _ h₂) ▸ hr, rfl⟩)) hms
+    simp only [observeRun, f₁, f₂]
+    exact sameStats_of_aggEq _ _ hinv.2 n₁ k₁ n₂ k₂
 
-/-! ## The excluded classes really break the full statements -/
+/-! ## The laws are needed (open finding F15c) -/
 
 /-- a toy normaliser over "number of URLs learnt": from the second URL on everything is merged into `m`;
-    `signal` says whether `NormalizeTree` reports the convergence; refusable URLs make the batch fail -/
+    `signal` says whether `NormalizeTree` reports the convergence -/
 def toyN (signal : Bool) : Normaliser Nat :=
   { learn := fun T xs => T + xs.length
     norm := fun T u => if 2 ≤ T then "m" else u
-    conv := fun T xs => signal && decide (T < 2) && decide (2 ≤ T + xs.length)
-    fails := fun _ xs => xs.any badUrl }
+    conv := fun T xs => signal && decide (T < 2) && decide (2 ≤ T + xs.length) }
 
 def rec1 (u : String) : Rec :=
   { ts := 1700000000123, dur := 7, tot := 9, status := 200, method := "GET", url := u,
@@ -237,41 +248,15 @@ theorem toy_laws : Laws (toyN true) 0 where
     simp only [toyN, Nat.zero_add, List.length_append, Bool.true_and, Bool.and_eq_false_iff,
       decide_eq_false_iff_not, Nat.not_lt, Nat.not_le] at hc ⊢
     by_cases h : 2 ≤ xs.length + ys.length <;> by_cases h' : 2 ≤ xs.length <;> simp [h, h'] <;> omega
-  fails_only_bad := fun T xs h => by
-    simp only [toyN, List.any_eq_true] at h; exact h
 
 /-- Without L3 (a convergence that is not signalled — the shape of finding F15c) batch independence fails:
     the same two records end as one endpoint with count 2 in one batch, as two endpoints in two batches. -/
 theorem batch_invariant_violation_witness :
     ∃ (N : Normaliser Nat) (bs₁ bs₂ : List (List Rec)), bs₁.flatten = bs₂.flatten ∧
-      hasBadUrl bs₁.flatten = false ∧
       ¬ AggEq (runSegs N 0 (St.init 0) (bs₁.map Seg.batch)).agg (runSegs N 0 (St.init 0) (bs₂.map Seg.batch)).agg := by
-  refine ⟨toyN false, [[rec1 "a.com/x", rec1 "a.com/y"]], [[rec1 "a.com/x"], [rec1 "a.com/y"]], rfl, by decide, ?_⟩
+  refine ⟨toyN false, [[rec1 "a.com/x", rec1 "a.com/y"]], [[rec1 "a.com/x"], [rec1 "a.com/y"]], rfl, ?_⟩
   intro h
   have := congrArg Sem.cnt (h.1 (· == ("GET", "m")))
-  revert this
-  decide
-
-/-- Without `RunOK` (a refusable URL, finding F15a) traffic is lost even under a lawful normaliser: the valid
-    record that shares a batch with `a.com//x` is not counted. -/
-theorem lose_no_traffic_violation_witness_F15a :
-    ∃ (segs : List Seg), Laws (toyN true) 0 ∧
-      ¬ Totals (runSegs (toyN true) 0 (St.init 0) segs).agg (external (recsOf segs)) := by
-  refine ⟨[Seg.batch [rec1 "a.com/users/1", rec1 "a.com//x"]], toy_laws, ?_⟩
-  intro h
-  have := (h.1 (fun _ => true)).1
-  revert this
-  decide
-
-/-- Without `RunOK` (a URL containing `:::`, finding F15b) a restart loses traffic: two endpoints collide
-    when the file is read back, and the next write has one record less. -/
-theorem restart_conserves_totals_violation_witness_F15b :
-    ∃ (segs : List Seg),
-      ¬ Totals (restore (runSegs (toyN true) 0 (St.init 0) segs).file) (external (recsOf segs)) := by
-  refine ⟨[Seg.batch [rec1 "a.com/d:::1"], Seg.restart, Seg.batch [rec1 "a.com/d:::2"], Seg.restart,
-           Seg.batch [{ rec1 "a.com/other" with method := "POST" }]], ?_⟩
-  intro h
-  have := (h.1 (fun _ => true)).1
   revert this
   decide
 
@@ -284,9 +269,13 @@ example :
     s.tree = 3 ∧ s.agg.endpoints.map (fun p => (p.1, p.2.count)) = [(("GET", "m"), 3)] := by
   decide
 
-/-- `RunOK` is satisfiable by a run with a restart in the middle; the totals survive it. -/
-example : RunOK (toyN true) 0 (St.init 0) [Seg.batch [rec1 "a.com/x"], Seg.restart, Seg.batch [rec1 "a.com/y"]] := by
-  unfold RunOK RunOK RunOK RunOK KeysOK
+/-- `restart_conserves_totals` on a run with restarts and URLs that used to be refused (`a.com//x`) or to be
+    truncated on restart (`a.com/d:::1`, `a.com/d:::2`): all four records are still there at the end. -/
+example :
+    let segs := [Seg.batch [rec1 "a.com/d:::1", rec1 "a.com//x"], Seg.restart, Seg.batch [rec1 "a.com/d:::2"],
+                 Seg.restart, Seg.batch [{ rec1 "a.com/other" with method := "POST" }]]
+    (restore (runSegs (toyN true) 0 (St.init 0) segs).file).endpoints.map (fun p => (p.1, p.2.count))
+      = [(("GET", "m"), 2), (("GET", "a.com/d:::2"), 1), (("POST", "a.com/other"), 1)] := by
   decide
 
 /-- `judge_holds_on_model` on a concrete case (two splittings and a run with a restart of a three-record stream
